@@ -120,6 +120,27 @@ pub fn replay(shapes: &[Value], seed: u64, reps: usize, rep: &mut Report, trace:
                     candidates.push(r[.. r.len() - 1].to_string());
                 }
             }
+            // ids the checker expects for closely related names (the hyphen dropped, each side of it alone): plausible ids for this
+            // name that it may not have reported - whichever of them it accepts it must also have reported
+            if name.contains('-') {
+                let mut related: Vec<String> = vec![name.replace(" - ", " ").replace('-', " ")];
+                if let Some((a, b)) = name.split_once('-') {
+                    related.push(a.trim().to_string());
+                    related.push(b.trim().to_string());
+                }
+                for rn in related {
+                    if rn.trim().is_empty() || !rn.chars().any(|c| c.is_alphabetic()) {
+                        continue;
+                    }
+                    if let Ok(ids) = single(&wrong, &rn) {
+                        for i in ids {
+                            if !candidates.contains(&i) {
+                                candidates.push(i);
+                            }
+                        }
+                    }
+                }
+            }
             let mut bad = false;
             for c in candidates {
                 match single(&c, &name) {
